@@ -18,7 +18,8 @@ from harness.props import c01
 PROPERTY = "C15"
 ENGINE = "c01"
 REQUIRED_THEOREMS = ["backtick_verbatim", "whitespace_noop", "whitespace_flushes", "spans_ordered", "ws_insensitive", "positions_irrelevant",
-                     "span_delimits_text", "tokens_have_kinds", "quoted_verbatim", "brace_verbatim"]
+                     "span_delimits_text", "tokens_have_kinds", "quoted_verbatim", "brace_verbatim",
+                     "call_verbatim", "call_chain_verbatim", "dotted_call_verbatim", "call_at_end", "call_then", "token_text_exact"]
 TRUSTED = list(c01.TRUSTED) + [
     "that two formattings of one Python fragment have the same ast.unparse normal form is CPython's (exercised, not proved)"
 ]
@@ -301,7 +302,7 @@ def classify(c, o, why):
 
 
 LEVEL_TEXT = (
-    'Proof (partial): Lean theorems about the executable model of tokenize() show for ALL bodies (any characters of any class except backtick/backslash) that a backtick-quoted name is one name token with the body verbatim and the documented span, that unquoted whitespace is a no-op after an operator/between tokens and otherwise only ends the pending token, and that for EVERY string that tokenises all spans lie inside the string, are ordered and do not overlap (loop invariant). Whole-string whitespace insensitivity IS a theorem (ws_insensitive: one unquoted whitespace character inserted at any point where no quote is open and the pending token is empty or an operator changes no token text/kind and no accept/reject outcome; positions never influence texts/kinds). Also theorems for EVERY string: span_delimits_text (the text of each token is a subsequence of the source characters inside its span, ends with the character at its stop and starts at its start, or just after the quote character that opened it; the only characters skipped are the opening quote and whitespace inside an operator run), tokens_have_kinds (every emitted token has a kind and a non-empty text), and quoted_verbatim/brace_verbatim (a brace-, backtick- or percent-quoted body that leaves the quote stack as it found it is ONE token with the body verbatim; the stack discipline is a small executable function of the body). Call-style verbatim quoting at top level and reformatting-invariance of Python fragments (ast.parse/unparse of CPython) are NOT theorems: they are covered by the correspondence of the model against the real tokenizer (texts, kinds and spans) and by oracles on the real code (same formula for two formattings; the normalised factor is the same Python expression over the same back-quoted names).'
+    'Proof (the lexer clauses in full; the CPython normal form by oracle): Lean theorems about the executable model of tokenize() show for ALL bodies (any characters of any class except backtick/backslash) that a backtick-quoted name is one name token with the body verbatim and the documented span, that unquoted whitespace is a no-op after an operator/between tokens and otherwise only ends the pending token, and that for EVERY string that tokenises all spans lie inside the string, are ordered and do not overlap (loop invariant). Whole-string whitespace insensitivity IS a theorem (ws_insensitive: one unquoted whitespace character inserted at any point where no quote is open and the pending token is empty or an operator changes no token text/kind and no accept/reject outcome; positions never influence texts/kinds). Also theorems for EVERY string: span_delimits_text (the text of each token is a subsequence of the source characters inside its span, ends with the character at its stop and starts at its start, or just after the quote character that opened it; the only characters skipped are the opening quote and whitespace inside an operator run), tokens_have_kinds (every emitted token has a kind and a non-empty text), and quoted_verbatim/brace_verbatim (a brace-, backtick- or percent-quoted body that leaves the quote stack as it found it is ONE token with the body verbatim; the stack discipline is a small executable function of the body). Call-style fragments are theorems as well: a name (word characters, not all digits/dots, dotted names included) directly followed by any chain of balanced ( ) / [ ] groups is ONE python token with the whole fragment verbatim, alone, after any prefix and before any follower that is not an opening bracket or a quote (call_verbatim, call_chain_verbatim, dotted_call_verbatim, call_at_end, call_then); and token_text_exact determines the text of EVERY token of EVERY string from its span and kind (contiguous slice; slice after the opening quote character; for an operator run the slice with whitespace removed). Only the reformatting-invariance of Python fragments (ast.parse/unparse of CPython) is NOT a theorem: it is covered by the correspondence of the model against the real tokenizer (texts, kinds and spans) and by oracles on the real code (same formula for two formattings; the normalised factor is the same Python expression over the same back-quoted names).'
 )
 LEVEL_NOTE = (
     "Trusted: Lean kernel + the three standard axioms; the hand model of tokenize()/Token validated token-by-token incl. spans on every run; Python's re classes enter as data; ast.unparse is CPython's."
